@@ -11,7 +11,7 @@
 From Coq Require Import List ZArith Bool Lia.
 From OV.C12 Require Import OpDefs Model Spec.
 From OV.C15 Require Import Model.
-From OV.gen Require Import C12_OpTable.
+From OV.gen Require Import C12_OpTable C15_Flags.
 Import ListNotations.
 Local Open Scope Z_scope.
 
@@ -173,7 +173,9 @@ Definition plain_end (t : ptok) : bool :=       (* an operand end that is not a 
   end.
 
 Definition amb_ok (b : oper) (l r : expr) : bool :=
-  if is (op_type (lexop b)) ot_ambiguous then is_rightop_tok (lastu l) || negb (opish (Some (first r))) else true.
+  if is (op_type (lexop b)) ot_ambiguous
+  then ambfix || is_rightop_tok (lastu l) || negb (opish (Some (first r)))
+  else true.
 Definition right_next_ok (nxt : option ptok) : bool :=
   match nxt with None => true | Some _ => opish nxt end.
 
@@ -339,7 +341,7 @@ Qed.
 
 (* an ambiguous binary spelling between an operand end and the start of an operand *)
 Lemma olu_binary : forall p nx l, operand_end p = true -> only_unary l = false ->
-  is_rightop_tok p || negb (opish (Some nx)) = true ->
+  ambfix || is_rightop_tok p || negb (opish (Some nx)) = true ->
   operatorIsLeftUnary (Some p) (Some nx) l = Some false.
 Proof.
   intros p nx l E OU C. unfold operatorIsLeftUnary. fold (only_unary l). rewrite OU.
@@ -349,8 +351,9 @@ Proof.
     assert (O : o = op_rightIncrement \/ o = op_rightDecrement).
     { rewrite orb_false_r in R. apply orb_true_iff in R. destruct R as [R|R]; apply oper_eqb_eq in R; auto. }
     destruct O as [-> | ->]; vm_compute; reflexivity.
-  - rewrite orb_false_r in E. cbn [orb] in C. apply negb_true_iff in C.
-    destruct (plain_end_types p E) as [A B]. rewrite A, B. cbn [negb].
+  - rewrite orb_false_r in E. rewrite orb_false_r in C.
+    destruct (plain_end_types p E) as [A B]. rewrite A, B. cbn [negb andb].
+    destruct ambfix; [reflexivity|]. cbn [orb andb] in *. apply negb_true_iff in C.
     unfold opish in C. rewrite C. reflexivity.
 Qed.
 
@@ -392,7 +395,7 @@ Lemma step_binary : forall st b nx nxt_l lft out0,
   outs st = sp_out lft ++ out0 ->
   allpop b lft = true ->
   forall base, opsk st = sp_ops lft ++ base -> base_ok b base = true ->
-  (is (op_type (lexop b)) ot_ambiguous = true -> is_rightop_tok (lastu lft) || negb (opish (Some nx)) = true) ->
+  (is (op_type (lexop b)) ot_ambiguous = true -> ambfix || is_rightop_tok (lastu lft) || negb (opish (Some nx)) = true) ->
   step st (POp (lexop b)) (Some nx) = Some (after st (POp b) (lft :: out0) (b :: base)).
 Proof.
   intros st b nx nxt_l lft out0 I W HP HO AP base HS HB HA.
@@ -486,6 +489,62 @@ Proof.
   rewrite (applyTernary_id _ _ _ W). unfold applyOperator. rewrite B, L, R, P. reflexivity.
 Qed.
 
+(* attachPair (409-483) in the three positions of the fragment *)
+Lemma rpar_types : is (op_type rpar) (ot_or ot_parentheses ot_braces) = true /\ is (op_type rpar) ot_parentheses = true
+  /\ is (op_type rpar) ot_pairEnd = true /\ is (op_type rbrk) ot_pairEnd = true
+  /\ is (op_type rbrk) ot_parentheses = false /\ is (op_type rbrk) ot_brackets = true
+  /\ is (op_type lpar) ot_pairEnd = false /\ is (op_type lbrk) ot_pairEnd = false.
+Proof. repeat split; vm_compute; reflexivity. Qed.
+
+Lemma transform_paren : forall e out, transformLastPair (EPair rpar e :: out) = Some (EParen e :: out).
+Proof.
+  intros. unfold transformLastPair. destruct rpar_types as (A & B & _). rewrite A, B. reflexivity.
+Qed.
+
+Lemma not_pairEnd_bin : forall o, In o binops -> is (op_type o) ot_pairEnd = false.
+Proof.
+  assert (G : forallb (fun o => negb (is (op_type o) ot_pairEnd)) binops = true) by (vm_compute; reflexivity).
+  intros o I. rewrite forallb_forall in G. apply negb_true_iff. auto.
+Qed.
+Lemma not_pairEnd_left : forall o, In o leftops -> is (op_type o) ot_pairEnd = false.
+Proof.
+  assert (G : forallb (fun o => negb (is (op_type o) ot_pairEnd)) leftops = true) by (vm_compute; reflexivity).
+  intros o I. rewrite forallb_forall in G. apply negb_true_iff. auto.
+Qed.
+
+Lemma attach_paren : forall prev e out, prev_ok prev ->
+  attachPair prev (EPair rpar e :: out) = Some (EParen e :: out).
+Proof.
+  intros prev e out HP. unfold attachPair.
+  destruct (length (EPair rpar e :: out) <? 2)%nat; [apply transform_paren|].
+  destruct HP as [->|(o & -> & Ho)]; cbn [is_output_tok orb negb]; [apply transform_paren|].
+  assert (PE : is (op_type o) ot_pairEnd = false).
+  { destruct rpar_types as (_ & _ & _ & _ & _ & _ & A & B).
+    destruct Ho as [->|[->|[I|I]]]; auto using not_pairEnd_bin, not_pairEnd_left. }
+  rewrite PE. cbn [negb]. apply transform_paren.
+Qed.
+
+Definition plain_tok (p : ptok) : Prop := (exists a, p = PAtom a) \/ p = POp rpar \/ p = POp rbrk.
+
+Lemma primary_last : forall f, primary f -> plain_tok (lastu f).
+Proof. intros f P. destruct P; cbn [lastu]; unfold plain_tok; eauto. Qed.
+
+Lemma attach_call : forall p f a out, plain_tok p ->
+  attachPair (Some p) (EPair rpar a :: f :: out) = Some (ECall f a :: out).
+Proof.
+  intros p f a out HP. unfold attachPair. cbn [length Nat.ltb Nat.leb].
+  destruct rpar_types as (_ & B & C & D & _).
+  destruct HP as [(x & ->)|[->| ->]]; cbn [is_output_tok orb negb]; rewrite ?C, ?D; cbn [negb]; rewrite B; reflexivity.
+Qed.
+
+Lemma attach_sub : forall p f a out, plain_tok p ->
+  attachPair (Some p) (EPair rbrk a :: f :: out) = Some (ESub f a :: out).
+Proof.
+  intros p f a out HP. unfold attachPair. cbn [length Nat.ltb Nat.leb].
+  destruct rpar_types as (_ & _ & C & D & E & F & _).
+  destruct HP as [(x & ->)|[->| ->]]; cbn [is_output_tok orb negb]; rewrite ?C, ?D; cbn [negb]; rewrite E, F; reflexivity.
+Qed.
+
 Theorem consume : forall nxt t, wfE nxt t ->
   forall st rest,
     hd_error rest = nxt ->
@@ -522,7 +581,7 @@ Proof.
     cbn [nop_ok lspine forallb] in HB. apply andb_true_iff in HB. destruct HB as [HB1 HB2].
     rewrite (IHwfE1 st (POp (lexop b) :: toks r ++ rest) eq_refl HP HB2).
     cbn [run]. rewrite (hd_error_app_first _ _ rest H1).
-    assert (AM : is (op_type (lexop b)) ot_ambiguous = true -> is_rightop_tok (lastu l) || negb (opish (Some (first r))) = true).
+    assert (AM : is (op_type (lexop b)) ot_ambiguous = true -> ambfix || is_rightop_tok (lastu l) || negb (opish (Some (first r))) = true).
     { intro AM. unfold amb_ok in H4. rewrite AM in H4. exact H4. }
     rewrite (step_binary (after st (lastu l) (sp_out l ++ outs st) (sp_ops l ++ opsk st)) b (first r) _ l (outs st) H H0 eq_refl eq_refl H2 (opsk st) eq_refl HB1 AM).
     assert (P2 : prev_ok (st_prev (after (after st (lastu l) (sp_out l ++ outs st) (sp_ops l ++ opsk st)) (POp b) (l :: outs st) (b :: opsk st)))).
@@ -548,19 +607,9 @@ Proof.
     unfold step. change (is (op_type rpar) ot_pairStart) with false. change (is (op_type rpar) ot_pairEnd) with true. cbv iota.
     cbn [st_rest st_cur s_before s_ops s_out]. rewrite !app_nil_r.
     unfold prevIsStart. cbn [st_prev]. rewrite (lastu_not_start _ _ H).
-    rewrite (close_content _ e rpar lpar false (s_ops (st_cur st)) (s_out (st_cur st)) H); try reflexivity.
-    (* attachPair: an operand position, so parentheses *)
-    assert (AT : attachPair (st_prev st) (EPair rpar e :: s_out (st_cur st)) = Some (EParen e :: s_out (st_cur st))).
-    { unfold attachPair. destruct (length (EPair rpar e :: s_out (st_cur st)) <? 2)%nat; [reflexivity|].
-      destruct HP as [->|(o & -> & Ho)]; [reflexivity|]. cbn [is_output_tok orb negb].
-      assert (PE : is (op_type o) ot_pairEnd = false).
-      { destruct Ho as [->|[->|[I|I]]]; try (vm_compute; reflexivity).
-        - clear - I. assert (G : forallb (fun o => negb (is (op_type o) ot_pairEnd)) binops = true) by (vm_compute; reflexivity).
-          rewrite forallb_forall in G. apply negb_true_iff. auto.
-        - assert (G : forallb (fun o => negb (is (op_type o) ot_pairEnd)) leftops = true) by (vm_compute; reflexivity).
-          rewrite forallb_forall in G. apply negb_true_iff. auto. }
-      rewrite PE. reflexivity. }
-    rewrite AT. cbn [lastu sp_out sp_ops app]. unfold after. cbn [st_cur s_before st_rest]. reflexivity.
+    rewrite (close_content _ e rpar lpar false (s_ops (st_cur st)) (s_out (st_cur st)) H); [|vm_compute; reflexivity ..].
+    rewrite (attach_paren _ e _ HP).
+    cbn [lastu sp_out sp_ops app]. unfold after. cbn [st_cur s_before st_rest]. reflexivity.
   - (* call without arguments *)
     destruct (primary_sp f H) as (SO & SP & LS).
     cbn [toks]. rewrite <- app_assoc. cbn [app].
@@ -575,16 +624,13 @@ Proof.
     change (is (op_type lpar) ot_pairStart) with true.
     cbn [closeLoop]. change (is (op_type lpar) ot_pairStart) with true.
     change (ot_eqb (op_type rpar) (ot_shl1 (op_type lpar))) with true. cbv iota.
+    unfold after. cbn [st_cur s_out s_ops s_before st_rest].
     assert (AT0 : applyTernary (f :: outs st) = f :: outs st) by (destruct H; reflexivity).
     rewrite AT0.
-    assert (AO : applyOperator true rpar (f :: outs st) = Some (EPair rpar EEmpty :: f :: outs st)) by reflexivity.
+    assert (AO : applyOperator true rpar (f :: outs st) = Some (EPair rpar EEmpty :: f :: outs st)) by (vm_compute; reflexivity).
     rewrite AO.
-    (* attachPair: after an operand end, a call *)
-    assert (AT : attachPair (Some (lastu f)) (EPair rpar EEmpty :: f :: outs st) = Some (ECall f EEmpty :: outs st)).
-    { unfold attachPair. cbn [length Nat.ltb Nat.leb].
-      pose proof (lastu_end _ _ H0) as E. unfold operand_end in E.
-      destruct H; cbn [lastu] in *; reflexivity. }
-    rewrite AT. cbn [lastu sp_out sp_ops app]. unfold after. cbn [st_cur s_before st_rest]. reflexivity.
+    rewrite (attach_call _ f EEmpty (outs st) (primary_last f H)).
+    cbn [lastu sp_out sp_ops app]. unfold after. cbn [st_cur s_before st_rest]. reflexivity.
   - (* call with arguments *)
     destruct (primary_sp f H) as (SO & SP & LS).
     cbn [toks]. rewrite <- app_assoc. cbn [app].
@@ -603,11 +649,9 @@ Proof.
     cbn [st_rest st_cur s_before s_ops s_out]. rewrite !app_nil_r.
     unfold prevIsStart. cbn [st_prev]. rewrite (lastu_not_start _ _ H1).
     unfold after. cbn [st_cur s_ops s_out s_before st_rest].
-    rewrite (close_content _ a rpar lpar false (s_ops (st_cur st)) (f :: s_out (st_cur st)) H1); try reflexivity.
-    assert (AT : attachPair (Some (lastu f)) (EPair rpar a :: f :: s_out (st_cur st)) = Some (ECall f a :: s_out (st_cur st))).
-    { unfold attachPair. cbn [length Nat.ltb Nat.leb].
-      destruct H; cbn [lastu] in *; reflexivity. }
-    rewrite AT. cbn [lastu sp_out sp_ops app]. reflexivity.
+    rewrite (close_content _ a rpar lpar false (opsk st) (f :: outs st) H1); [|vm_compute; reflexivity ..].
+    cbn [st_prev]. rewrite (attach_call _ f a (outs st) (primary_last f H)).
+    cbn [lastu sp_out sp_ops app]. reflexivity.
   - (* subscript *)
     destruct (primary_sp a H) as (SO & SP & LS).
     cbn [toks]. rewrite <- app_assoc. cbn [app].
@@ -626,11 +670,9 @@ Proof.
     cbn [st_rest st_cur s_before s_ops s_out]. rewrite !app_nil_r.
     unfold prevIsStart. cbn [st_prev]. rewrite (lastu_not_start _ _ H1).
     unfold after. cbn [st_cur s_ops s_out s_before st_rest].
-    rewrite (close_content _ i rbrk lbrk false (s_ops (st_cur st)) (a :: s_out (st_cur st)) H1); try reflexivity.
-    assert (AT : attachPair (Some (lastu a)) (EPair rbrk i :: a :: s_out (st_cur st)) = Some (ESub a i :: s_out (st_cur st))).
-    { unfold attachPair. cbn [length Nat.ltb Nat.leb].
-      destruct H; cbn [lastu] in *; reflexivity. }
-    rewrite AT. cbn [lastu sp_out sp_ops app]. reflexivity.
+    rewrite (close_content _ i rbrk lbrk false (opsk st) (a :: outs st) H1); [|vm_compute; reflexivity ..].
+    cbn [st_prev]. rewrite (attach_sub _ a i (outs st) (primary_last a H)).
+    cbn [lastu sp_out sp_ops app]. reflexivity.
 Qed.
 
 (* ---------------------------------------------------------------- the whole parse *)
@@ -641,8 +683,11 @@ Proof.
   pose proof (consume None t W init_state [] eq_refl (or_introl eq_refl)) as C.
   rewrite app_nil_r in C. rewrite C.
   2:{ unfold nop_ok, init_state, opsk. cbn [st_cur s_ops]. apply forallb_forall. intros q _. reflexivity. }
-  cbn [run]. unfold after, init_state, opsk, outs. cbn [st_cur s_ops s_out]. rewrite !app_nil_r.
-  pose proof (rebuild None t W (prevIsStart
-     {| st_prev := Some (lastu t); st_cur := {| s_before := None; s_out := sp_out t; s_ops := sp_ops t |}; st_rest := [] |}) []) as R.
-  rewrite app_nil_r in R. rewrite R. reflexivity.
+  cbn [run].
+  set (S := after init_state (lastu t) (sp_out t ++ outs init_state) (sp_ops t ++ opsk init_state)).
+  assert (OP : opsk S = sp_ops t) by (unfold S, after, opsk, outs, init_state; cbn [st_cur s_ops s_out]; apply app_nil_r).
+  assert (OU : outs S = sp_out t) by (unfold S, after, opsk, outs, init_state; cbn [st_cur s_ops s_out]; apply app_nil_r).
+  rewrite OP, OU.
+  pose proof (rebuild None t W (prevIsStart S) []) as R.
+  rewrite app_nil_r in R. rewrite R. clear. destruct t; reflexivity.
 Qed.
